@@ -20,7 +20,9 @@ CHECKS = {
  "C04": dict(cat="translation_validation", ref="4 C04",
    text="Same symbolic runs as C01; per path the outcome is classified: result, documented claripy error whose condition is implied by the path "
         "condition (decided by Z3), or anything else = violation. Python-level shifts by caller-controlled amounts emit a resource obligation "
-        "(amount <= 2^24) decided by Z3 and replayed under RLIMIT_AS.",
+        "(amount <= 2^24) decided by Z3 and replayed under RLIMIT_AS. Floating-point leg (fpcrash:): the folding of conversions and arithmetic on symbolic "
+        "operand VALUES (float shadows), asked only whether it raises anything but a claripy error - for every value, also where the result is unspecified; "
+        "conversions into float sorts the concrete backend does not support.",
    technique="symbolic execution on int shadows; Z3 decides exception-condition and resource obligations per path",
    note=EXPR_NOTE),
  "C05": dict(cat="translation_validation", ref="4 C05",
@@ -36,14 +38,15 @@ CHECKS = {
         "the two results must be the same object. Second leg (exploration): Z3 generates integers whose CPython hashes collide and integers whose byte "
         "serialisation meets a sentinel / a byte-length boundary; they are built natively in every position that reaches the structural hash (interval "
         "annotation fields, region address, wide BVV value, user annotation) and four pools of expressions are compared pairwise: identity iff a deep "
-        "structural comparison finds no difference.",
+        "structural comparison finds no difference; a fifth pool attaches several annotations in both orders and compares what comes back with the order written.",
    technique="symbolic execution on int shadows; identity assertions per path (path feasibility decided by Z3)",
    note=EXPR_NOTE),
  "C10": dict(cat="translation_validation", ref="4 C10",
    text="On every Boolean result of the C01 shapes claripy.is_true/is_false and Bool.is_true/is_false are called (twice: cached answers); an answer True "
         "must be valid/unsatisfiable for the written tree under the path condition for all constants and variables (Z3 query). Second leg: a solver's "
         "is_true / is_false over query histories (both orders, with and without extra constraints, other solvers asked first) on the real "
-        "Backend.is_true memo with the oracle backend, for Solver, SolverComposite, SolverReplacement and SolverHybrid.",
+        "Backend.is_true memo with the oracle backend, for Solver, SolverComposite, SolverReplacement and SolverHybrid. Third leg (fptruth:): the Boolean-valued floating-point "
+        "operations folded on symbolic operand values (NaN, signed zeros, infinities included) - the literal they fold to is what every truth check reports.",
    technique="symbolic execution on int shadows; validity of each True answer decided by Z3 per path",
    note=EXPR_NOTE),
 }
@@ -209,7 +212,9 @@ for _p, _cat, _t in (
                               "replacements, conflicts, extra constraints, branches, merge / split / combine of solvers that learned replacements) and C11 families; "
                               "specifications as C11. Approximate modes: 15 histories on SolverHybrid asked with exact=False (real SolverReplacement over "
                               "SolverVSA on the same symbolic constants): containment only - no existing value excluded, min / max do not cut off a value, "
-                              "satisfiable / solution never False for something that exists."),
+                              "satisfiable / solution never False for something that exists. Non-bit-vector sorts (x:): per value class of a float / string / "
+                              "Boolean constant and spelling of the equality, the values SolverReplacement and SolverHybrid enumerate for the variable's bit pattern on the "
+                              "real backends are compared with an independent Z3 enumeration (solver-generated witnesses)."),
     ("C14", "model_checking", "Trees of up to three branched solver objects (branch of a branch) with interleaved adds, queries, simplify, downsize on every "
                               "frontend class, reuse_z3_solver on/off; every answer is specified by the constraint list of its own object."),
     ("C15", "model_checking", "merge (with/without common ancestor, 2-3 solvers, overlapping conditions), combine (disjoint / overlapping / after cached queries) "
